@@ -285,7 +285,10 @@ def builders(ctx):
                 ctx.nt(("builder", nx, ny, sp, gs))
     oracle_layout(ctx, base_spec.get_base_spec().layout, None, "gemini.base_spec.get_base_spec()")
     oracle_layout(ctx, logical.get_spec().layout, None, "gemini.logical.get_spec()")
-    ctx.evaluations += 2
+    # a builder's result must not depend on which builders ran before it in this process
+    oracle_layout(ctx, base_spec.get_base_spec().layout, None, "gemini.base_spec.get_base_spec() [after logical.get_spec()]")
+    oracle_layout(ctx, single_col_zone.get_spec(2, 2, 2.0).layout, None, "single_col_zone.get_spec(2,2,2.0) [after the gemini builders]")
+    ctx.evaluations += 4
 
 
 def replay(data):
